@@ -1,5 +1,5 @@
 (* C15 - linkage, storage duration and symbol emission.  Statements only; proofs in Proofs/. *)
-From Chibicc Require Import Base.Mach Model.Linkage Proofs.LinkageProofs.
+From Chibicc Require Import Base.Mach Model.Linkage Proofs.LinkageProofs Proofs.LinkageComplete.
 
 (* tentative definitions (C11 6.9.2): for EVERY sequence of file-scope declarations of a unit and
    every identifier n: if the unit has a real definition of n, no tentative definition of n is
@@ -21,6 +21,12 @@ Print Assumptions C15_real_definitions_kept.
 Theorem C15_live_only_if_reachable : forall fs m, In m (live_set fs) -> reach fs [] m.
 Proof. exact live_set_sound. Qed.
 Print Assumptions C15_live_only_if_reachable.
+
+(* and conversely every function reachable from an always-emitted one IS marked (function names
+   distinct): together, the set of emitted static inline functions is exactly the reachable set *)
+Theorem C15_live_if_reachable : forall fs, NoDup (map f_name fs) -> forall m, reach fs [] m -> defined fs m -> In m (live_set fs).
+Proof. exact live_set_complete. Qed.
+Print Assumptions C15_live_if_reachable.
 
 Theorem C15_marking_monotone : forall fs fuel live n x, In x live -> In x (mark_live fuel fs live n).
 Proof. exact mark_live_mono. Qed.
